@@ -242,8 +242,28 @@ def part_b(d, tier, seed):
     rnd = random.Random(seed)
     total = len(combos)
     if tier == "quick":
-        # pairwise-ish: a seeded sample
-        combos = rnd.sample(combos, 260)
+        # every (flag value, file value) pair of every setting with all other settings absent, and with all other
+        # settings present in the file; plus a seeded sample of the rest
+        def others(c, s, where, want_absent):
+            return all((c[where][t] == "absent") == want_absent for t in c[where] if t != s)
+        single = []
+        for s_ in ("project", "output", "library", "verbose", "force"):
+            single += [c for c in combos if others(c, s_, "flags", True) and (others(c, s_, "file", True) or others(c, s_, "file", False))]
+        seen = set()
+        uniq = []
+        for c in single:
+            k = json.dumps(c, sort_keys=True)
+            if k not in seen:
+                seen.add(k)
+                uniq.append(c)
+        # the "other settings present" family is large (2^4 value choices): keep one per (setting, flag value, file value)
+        keep = {}
+        for c in uniq:
+            for s_ in ("project", "output", "library", "verbose", "force"):
+                if others(c, s_, "flags", True):
+                    kk = (s_, c["flags"][s_], c["file"][s_], others(c, s_, "file", True))
+                    keep.setdefault(kk, c)
+        combos = list(keep.values()) + rnd.sample(combos, 200)
     # invalid settings: substitute one invalid value into a sample
     rej = []
     for c in rnd.sample(combos, min(len(combos), 40 if tier == "quick" else 400)):
